@@ -109,9 +109,9 @@ def polar_spec(rng, imax: int, jmax: int) -> dict[str, float]:
 
 def gen_cases(tier: str, seed: int) -> list[dict[str, Any]]:
     q = tier == "quick"
-    cases = [dict(kind="sample2d", seed=seed, idx=i, n=60 if q else 200) for i in range(16 if q else 160)]
-    cases += [dict(kind="roundtrip", seed=seed, idx=i, npos=2000) for i in range(50 if q else 2000)]
-    cases += [dict(kind="e2e", seed=seed, idx=i) for i in range(16 if q else 200)]
+    cases = [dict(kind="sample2d", seed=seed, idx=i, n=60 if q else 200) for i in range(16 if q else 1000)]
+    cases += [dict(kind="roundtrip", seed=seed, idx=i, npos=2000) for i in range(50 if q else 10000)]
+    cases += [dict(kind="e2e", seed=seed, idx=i) for i in range(16 if q else 1500)]
     return cases
 
 
